@@ -1,6 +1,7 @@
 package main
 
 import (
+	"bytes"
 	"context"
 	"fmt"
 	"math/rand"
@@ -14,6 +15,7 @@ import (
 	qnet "github.com/lugu/qiloop/bus/net"
 
 	"verif/gen/probe"
+	rc "verif/refcodec"
 	"verif/stuck"
 	"verif/svc"
 	"verif/wk"
@@ -110,7 +112,7 @@ func genArg(rng *rand.Rand, big bool) string {
 }
 
 func c04(c *wk.Ctx) {
-	c.Note("rule", "each plan: an in-process directory server (unix; tcp too in thorough) hosting the freshly generated Probe service as 2 services x 3 objects; 4-32 caller goroutines over 1-4 sessions (own proxies each) issue calls work(token, arg) with unique tokens and argument sizes 0 B - 256 KiB to random objects while method bodies park and are released in PRNG order (replies cross); some calls are cancelled through their context while parked; two goroutines call through two proxies obtained from one bus.Cache on one connection; a raw harness connection sends frames of every message type (Post, Cancel, Capability, Reply, Error, Event, Cancelled) addressed to the real action with fresh tokens, each followed by a barrier Call on the same connection and object. Oracle: each call returns once, success => exactly f(own token, own arg) and exec[token]==1; otherwise exec<=1; Post: exec<=1 and no frame with the post's id comes back; any other type: exec==0. Distinct non-trivial = distinct plans in which at least two calls overlapped and at least one reply-order inversion was observed.")
+	c.Note("rule", "each plan: an in-process directory server (unix; tcp too in thorough) hosting the freshly generated Probe service as 2 services x 3 objects; 4-32 caller goroutines over 1-4 sessions (own proxies each) issue calls work(token, arg) with unique tokens and argument sizes 0 B - 256 KiB to random objects while method bodies park and are released in PRNG order (replies cross); some calls are cancelled through their context while parked; two goroutines call through two proxies obtained from one bus.Cache on one connection; a raw harness connection sends frames of every message type (Post, Cancel, Capability, Reply, Error, Event, Cancelled) addressed to the real action with fresh tokens, each followed by a barrier Call on the same connection and object, then a burst of 20-80 posts and calls pipelined in one write (one response frame per call, none per post, per-token execution counts). Oracle: each call returns once, success => exactly f(own token, own arg) and exec[token]==1; otherwise exec<=1; Post: exec<=1 and no frame with the post's id comes back; any other type: exec==0. Distinct non-trivial = distinct plans in which at least two calls overlapped and at least one reply-order inversion was observed.")
 	c.Cases("plan", c.Pick(72, 2000), func(i int, rng *rand.Rand) {
 		transport := "unix"
 		if c.Thorough() && i%3 == 2 {
@@ -269,6 +271,15 @@ func c04one(c *wk.Ctx, i int, rng *rand.Rand, transport string) {
 		id     uint32
 		target string
 	}
+	type burstItem struct {
+		typ   uint8
+		token uint64
+		s, o  int
+		id    uint32
+	}
+	var burst []burstItem
+	burstGot := map[uint32]int{}
+	burstFirst := map[uint32]rawFrame{}
 	var rawProbes []rawProbe
 	var rawBack []string
 	rawDone := make(chan struct{})
@@ -373,6 +384,64 @@ func c04one(c *wk.Ctx, i int, rng *rand.Rand, transport string) {
 				for _, pr := range rawProbes {
 					if pr.id == of.H.ID {
 						rawBack = append(rawBack, fmt.Sprintf("RESPONSE to raw frame type=%d target=%s: frame type %d", pr.typ, pr.target, of.H.Type))
+					}
+				}
+			}
+		}
+		// burst: posts and calls pipelined in ONE write on this connection (the next message is already
+		// queued when the previous one is routed), every token unique
+		{
+			m := 20 + r.Intn(60)
+			var buf bytes.Buffer
+			pending := 0
+			for k := 0; k < m; k++ {
+				typ := uint8(qnet.Call)
+				if r.Intn(2) == 0 {
+					typ = qnet.Post
+				} else {
+					pending++
+				}
+				it := burstItem{typ: typ, token: uint64(9000)<<32 | uint64(k), s: r.Intn(2), o: r.Intn(3), id: rcn.id()}
+				buf.Write(rc.Frame(rc.Header{Magic: rc.Magic, ID: it.id, Type: typ, Service: w.svcs[it.s].id, Object: w.svcs[it.s].objs[it.o].id, Action: workID}, workArgs(it.token, "burst")))
+				burst = append(burst, it)
+			}
+			if err := rcn.sendBytes(buf.Bytes()); err != nil {
+				rawErr = "raw burst: " + err.Error()
+				return
+			}
+			isCall := map[uint32]bool{}
+			for _, it := range burst {
+				isCall[it.id] = it.typ == qnet.Call
+			}
+			note := func(f rawFrame) {
+				if _, ok := isCall[f.H.ID]; ok {
+					if burstGot[f.H.ID] == 0 {
+						burstFirst[f.H.ID] = f
+						if isCall[f.H.ID] {
+							pending--
+						}
+					}
+					burstGot[f.H.ID]++
+				}
+			}
+			for pending > 0 {
+				f, err := rcn.recv(120 * time.Second)
+				if err != nil {
+					rawErr = "raw burst: " + err.Error()
+					return
+				}
+				note(f)
+			}
+			// one barrier per object: whatever the burst still had in that object's mailbox is answered first
+			for bs := 0; bs < 2; bs++ {
+				for bo := 0; bo < 3; bo++ {
+					var others []rawFrame
+					if _, err := rcn.call(w.svcs[bs].id, w.svcs[bs].objs[bo].id, workID, workArgs(uint64(9500)<<32|uint64(bs*3+bo), "barrier"), &others); err != nil {
+						rawErr = "raw burst barrier: " + err.Error()
+						return
+					}
+					for _, of := range others {
+						note(of)
 					}
 				}
 			}
@@ -510,6 +579,34 @@ func c04one(c *wk.Ctx, i int, rng *rand.Rand, transport string) {
 			return
 		}
 	}
+	for _, it := range burst {
+		ex := impl(it.s, it.o).ExecCount(it.token)
+		d := map[string]interface{}{"type": typeName(it.typ), "exec": ex, "frames_with_its_id": burstGot[it.id], "plan": detail}
+		switch {
+		case it.typ == qnet.Post && burstGot[it.id] != 0:
+			c.Viol("plan", i, "post=response/burst", "a pipelined post was answered", d)
+			return
+		case it.typ == qnet.Post && ex > 1:
+			c.Viol("plan", i, "post=executed-twice/burst", "a pipelined post ran the method more than once", d)
+			return
+		case it.typ == qnet.Call && burstGot[it.id] != 1:
+			c.Viol("plan", i, "call=outcomes/burst", fmt.Sprintf("a pipelined call got %d response frames", burstGot[it.id]), d)
+			return
+		case it.typ == qnet.Call && burstFirst[it.id].H.Type == qnet.Reply:
+			if got, ok := strResult(burstFirst[it.id].P); !ok || got != svc.F(it.token, "burst") {
+				c.Viol("plan", i, "result=not-own/burst", fmt.Sprintf("a pipelined call returned %q", clipS(got)), d)
+				return
+			}
+			if ex != 1 {
+				c.Viol("plan", i, fmt.Sprintf("exec=%d-for-success/burst", ex), "a pipelined call that succeeded did not run the method exactly once", d)
+				return
+			}
+		case it.typ == qnet.Call && ex > 1:
+			c.Viol("plan", i, "exec=more-than-once/burst", "a pipelined call ran the method more than once", d)
+			return
+		}
+	}
+	c.Count("raw_burst_frames", int64(len(burst)))
 	for _, b := range rawBack {
 		if strings.HasPrefix(b, "RESPONSE0") {
 			c.Viol("plan", i, "target=service0/type=post/effect=response", b, detail)
